@@ -10,6 +10,7 @@ from __future__ import annotations
 import itertools
 
 from vf.engines import v2x
+from vf.engines.v2x import sm
 from vf.engines.v2x import Explorer, Violation, sm
 from nemoguardrails.colang.v2_x.runtime.flows import FlowStatus, FlowHeadStatus
 
@@ -251,6 +252,102 @@ def tasks(tier):
     return out
 
 
+# ----------------------------------------------------------------------------- events aimed at action instances
+def _all_outcomes(state, uid_n, conc):
+    stack = [[]]
+    while stack:
+        vec = stack.pop()
+        st = v2x.copy_state(state)
+        points, n2, _ = v2x.step(st, conc, vec, uid_n)
+        yield tuple(k for k, _ in points), st, n2
+        taken = [k for k, _ in points]
+        for i in range(len(vec), len(points)):
+            for alt in range(taken[i] + 1, points[i][1]):
+                stack.append(taken[:i] + [alt])
+
+
+def instance_event_part(_):
+    """Two flows react to one event by sending an event to an action INSTANCE each holds (`send $r.Stop()`,
+    `send $r.Change(...)`): different instances are different actions - exactly one flow proceeds; the same
+    shared instance is an identical action - both proceed and the event is sent once."""
+    res = {"instance_event_cases": 0, "instance_event_outcomes": 0, "viol": []}
+    for op, shared, loops in itertools.product(("Stop()", 'Change(arguments={"volume": 3})'), (False, True), ("same", "different")):
+        if shared and loops == "different":
+            continue   # identical actions of different loops are not merged: that is the `own` case
+        argA, argB = ("x", "x") if shared else ("A", "B")
+        deco = '@loop("L2")\n' if loops == "different" else ""
+        # own instances: each flow starts its action when it is started (no competition); shared instance: both
+        # react to E0 by starting the identical action, which is started once and held by both
+        first = "  match E0()\n" if shared else ""
+        # (with a shared instance both flows go on: their next statements must be identical too, or they would compete again)
+        dA, dB = ("Done", "Done") if shared else ("DoneA", "DoneB")
+        src = (f'flow fa\n{first}  start Act1Action(script="{argA}") as $r\n  match E1()\n  send $r.{op}\n  send {dA}()\n  match Never()\n\n'
+               f'{deco}flow fb\n{first}  start Act1Action(script="{argB}") as $r\n  match E1()\n  send $r.{op}\n  send {dB}()\n  match Never()\n\n'
+               f'flow main\n  start fa\n  start fb\n  match Never()\n')
+        info = {"engine": "C05-inst", "source": src, "op": op, "shared": shared, "loops": loops}
+        name = f"{op.split('(')[0]}:{'shared' if shared else 'own'}-instance:{loops}-loop"
+        try:
+            st = v2x.init_state(src)
+            v2x.step(st, v2x.resolve_event(st, ("start_main",)), [], v2x.UIDS.n)
+        except Exception as e:
+            res["viol"].append((f"instance-events:{name}:program-raised", repr(e), info))
+            continue
+        if shared:
+            v2x.step(st, {"type": "E0"}, [], v2x.UIDS.n)
+        started = [e for e in st.outgoing_events if e["type"] == "StartAct1Action"]
+        if shared and loops == "same" and len(started) != 1:
+            res["viol"].append((f"instance-events:{name}:identical-start-not-merged", f"{len(started)} Start events", info))
+            continue
+        uids = [e["action_uid"] for e in started]
+        # the actions are running when E1 arrives
+        n0 = v2x.UIDS.n
+        for u in uids:
+            v2x.step(st, {"type": "Act1ActionStarted", "action_uid": u}, [], n0)
+            n0 = v2x.UIDS.n
+        res["instance_event_cases"] += 1
+        evname = "StopAct1Action" if op.startswith("Stop") else "ChangeAct1Action"
+        try:
+            outcomes = list(_all_outcomes(st, n0, {"type": "E1"}))
+        except Exception as e:
+            res["viol"].append((f"instance-events:{name}:interpreter-raised", f"event E1: {type(e).__name__}: {str(e)[:120]}", info))
+            continue
+        for vec, st2, _n in outcomes:
+            res["instance_event_outcomes"] += 1
+            outs = st2.outgoing_events
+            done = sorted(e["type"] for e in outs if e["type"] in ("DoneA", "DoneB"))
+            if shared:
+                done = sorted("Done" + f[-1].upper() for f in ("fa", "fb") if sm.is_listening_flow(st2.flow_id_states[f][-1]))
+            sent = [e["action_uid"] for e in outs if e["type"] == evname]
+            what = None
+            if shared and loops == "same":
+                # one shared instance: identical action, both proceed, the event is sent once
+                if done != ["DoneA", "DoneB"] or len([u for u in sent]) < 1:
+                    what = f"both flows hold the same instance: expected both to proceed and the event to be sent; proceeded {done}, {evname} sent for {len(sent)} instance(s)"
+            elif loops == "different":
+                if done != ["DoneA", "DoneB"] or not set(uids) <= set(sent):
+                    what = f"flows in different loops never compete: expected both to proceed, each event sent; proceeded {done}, {evname} sent for {sorted(set(sent))}"
+            else:
+                # different instances in one loop: different actions
+                if len(done) != 1:
+                    what = f"the flows address DIFFERENT action instances {uids}: exactly one must proceed, proceeded {done}"
+                else:
+                    winner = uids[0] if done == ["DoneA"] else uids[1]
+                    if op.startswith("Change") and sent != [winner]:
+                        what = f"{done[0][-1]} proceeded but {evname} was sent for {sent}, its own instance is {winner}"
+                    if op.startswith("Stop") and winner not in sent:
+                        what = f"{done[0][-1]} proceeded but no {evname} was sent for its own instance {winner} (sent: {sent})"
+            if what:
+                res["viol"].append((f"instance-events:{name}", f"tie-break {list(vec)}: " + what, dict(info, vector=list(vec))))
+                break
+    seen, uniq = set(), []
+    for v in res["viol"]:
+        if v[0] not in seen:
+            seen.add(v[0])
+            uniq.append(v)
+    res["viol"] = uniq
+    return res
+
+
 def run(rep, tier):
     from vf.e1run import run_e1
     import vf.props.c05 as me
@@ -261,11 +358,24 @@ def run(rep, tier):
         "all random.choice outcomes enumerated; depth: start + 2 trigger events",
     ]
     run_e1(rep, me, tier, budget_s=None if tier == "quick" else 1500)
+    from vf import par
+    for r in par.pmap(instance_event_part, [0]):
+        rep.set("instance_event_cases", r["instance_event_cases"])
+        rep.set("instance_event_outcomes", r["instance_event_outcomes"])
+        for sig, what, info in r["viol"]:
+            rep.violation(sig, what, info)
     rep.set("rule", "non-trivial = a step in which >=2 fitting flows competed in one loop (competitions)")
     rep.set("distinct_nontrivial", rep.cov.get("competitions", 0))
     rep.set("evaluations", rep.cov.get("transitions", 0))
 
 
 def replay(rp):
+    if rp.get("engine") == "C05-inst":
+        print(rp["source"])
+        r = instance_event_part(0)
+        for sig, what, _i in r["viol"]:
+            print(sig, ":", what)
+        print(rp.get("what"))
+        return 0
     from vf.props.c07 import replay as r
     return r(rp)
